@@ -94,7 +94,52 @@ def matrix_numbers(hs, full):
     return out
 
 
-def observe(hs, status, ret, prevs, full, qrng, light=False):
+def boundary_obs(hs, qrng):
+    """Dirichlet index sets, smoothing index lists and the boundary restriction for seeded
+    bdspecs (set on a copy of the space, as the constructor would)."""
+    dim = hs.dim
+    L = hs.numlevels
+    sides = [(ax, s) for ax in range(dim) for s in (0, 1)]
+    k = qrng.choice([0, 1, 1, 2, 2, len(sides)])
+    bds = sorted(qrng.sample(sides, min(k, len(sides))))
+    bd = qrng.choice(sides)
+    out = {'bds': [list(b) for b in bds], 'bd': list(bd), 'with_boundary': dim >= 2}
+    h = hs.copy()
+    h.bdspecs = [tuple(b) for b in bds] if bds else None
+    h._clear_cache()
+
+    def il(x):
+        return [[int(i) for i in t] for t in x]
+
+    def guard(name, fn):
+        try:
+            out[name] = fn()
+        except Exception as e:  # noqa
+            out[name] = 'err:' + errclass(e) + ':' + str(e)[:80]
+    guard('index_dirichlet', lambda: [[tl(h.index_dirichlet[lv][i]) for i in range(L)] for lv in range(L)])
+    guard('new', lambda: [[il(x) for x in lvl] for lvl in h.new_indices()])
+    guard('cell_supp', lambda: [[il(x) for x in lvl] for lvl in h.cell_supp_indices()])
+    guard('cell_supp_all', lambda: [[il(x) for x in lvl] for lvl in h.cell_supp_indices(remove_dirichlet=False)])
+    guard('global', lambda: [[il(x) for x in lvl] for lvl in h.global_indices()])
+    guard('smooth_new', lambda: [[int(i) for i in a] for a in h.indices_to_smooth('new')])
+    guard('smooth_cell_supp', lambda: [[int(i) for i in a] for a in h.indices_to_smooth('cell_supp')])
+    guard('dirichlet_dofs', lambda: [[int(i) for i in h.dirichlet_dofs(lv)] for lv in range(L)])
+    guard('non_dirichlet_dofs', lambda: [int(i) for i in h.non_dirichlet_dofs()])
+    if dim >= 2:
+        def bdry():
+            bs, mapping = hs.boundary(tuple(bd))
+            return {'L': int(bs.numlevels),
+                    'levels': [[tl(bs.hmesh.active[l]), tl(bs.hmesh.deactivated[l]), tl(bs.actfun[l]), tl(bs.deactfun[l])]
+                               for l in range(bs.numlevels)],
+                    'numspans': [[int(n) for n in m.numspans] for m in bs.hmesh.meshes],
+                    'numdofs': [[int(n) for n in m.numdofs] for m in bs.hmesh.meshes],
+                    'mapping': [int(i) for i in mapping],
+                    'truncate_disparity_kept': bool(bs.truncate == hs.truncate and bs.disparity == hs.disparity)}
+        guard('boundary', bdry)
+    return out
+
+
+def observe(hs, status, ret, prevs, full, qrng, light=False, bdq=False):
     o = {'status': status, 'L': int(hs.numlevels)}
     L = hs.numlevels
     o['levels'] = [[tl(hs.hmesh.active[l]), tl(hs.hmesh.deactivated[l]), tl(hs.actfun[l]), tl(hs.deactfun[l])]
@@ -155,6 +200,11 @@ def observe(hs, status, ret, prevs, full, qrng, light=False):
         except Exception as e:  # noqa
             qs.append({'l': l, 'k': k, 'cells': tl(cells), 'funcs': tl(funcs), 'error': errclass(e)})
     o['queries'] = qs
+    if bdq and status == 'Ok':
+        # only after successful calls: a refine_region call that fails on an empty selection has already
+        # added levels without clearing the index caches (stale ravel_global -> IndexError in boundary());
+        # such calls are outside the property's quantifier (marks must be non-empty sets of active cells)
+        o['bdq'] = boundary_obs(hs, qrng)
     try:
         o['mat'] = None if light else matrix_numbers(hs, full)
     except Exception as e:  # noqa
@@ -185,7 +235,7 @@ def run_history(cfg, ops, full, seed=0, observe_all=True):
         status, ret = apply_op(hs, op)
         if observe_all or i == len(ops) - 1:
             prevs = [states[-1]] + ([states[0]] if len(states) > 1 else [])
-            obs.append(observe(hs, status, ret, prevs, full, qrng))
+            obs.append(observe(hs, status, ret, prevs, full, qrng, bdq=True))
         else:
             obs.append(None)
         states.append(hs.copy())
@@ -230,7 +280,7 @@ def run_tree(cfg, depth, max_nodes, seed, full, light=False, root_masks=None):
             status, ret = apply_op(h2, op)
             qrng = random.Random(counter[0])
             prevs = [states[-1]] + ([states[0]] if len(states) > 1 else [])
-            o = observe(h2, status, ret, prevs, full, qrng, light=light and counter[0] % 10 != 0)
+            o = observe(h2, status, ret, prevs, full, qrng, light=light and counter[0] % 10 != 0, bdq=(counter[0] % 6 == 0))
             ops2 = ops + [op]
             nodes.append({'ops': ops2, 'obs': [None] * len(ops) + [o]})
             if d > 1 and status == 'Ok':
@@ -294,7 +344,7 @@ def run_random(cfg, seed, nops, cap, full):
         status, ret = apply_op(hs, op)
         prevs = [states[-1]] + ([states[0]] if len(states) > 1 else [])
         ops.append(op)
-        obs.append(observe(hs, status, ret, prevs, full, qrng))
+        obs.append(observe(hs, status, ret, prevs, full, qrng, bdq=True))
         states.append(hs.copy())
     return {'ops': ops, 'obs': obs}
 
